@@ -431,6 +431,17 @@ func runC14(w *World, r *Report) {
 	}
 	r.OK("C14.inputs-immutable", fmt.Sprintf("reflect accumulators of the %d functions of the concat closure", len(closure)), closure[0].Pos(), "Set / SetMapIndex receivers are created by the function itself")
 
+	// ---- fails-as-a-whole
+	r.Rule("C14.fails-as-a-whole", "in the concat closure a failing part fails the whole concatenation: no success return is reachable past an untested or non-nil error of a callee (a part dropped 'when it cannot be merged' makes the result depend on where the sequence was cut; shared helper with C13.no-dropped-error)", 1)
+	{
+		for _, f := range closure {
+			for _, d := range errDroppedReturns(f) {
+				r.Fail("C14.fails-as-a-whole", fmt.Sprintf("%s: success return after %s", w.fname(f), calleeFullName(d.call)), d.ret.Pos(), d.why+" — the failing part is silently left out: Concat([a,b,c]) and Concat([Concat([a,b]),c]) keep different parts (or one fails where the other succeeds)")
+			}
+		}
+		r.OK("C14.fails-as-a-whole", fmt.Sprintf("success returns of the %d functions of the concat closure", len(closure)), closure[0].Pos(), "none reachable past a callee's error")
+	}
+
 	// ---- nil-chunk
 	r.Rule("C14.nil-chunk", "ConcatMessages rejects a nil chunk before touching it", 1)
 	{
